@@ -7,7 +7,7 @@ use customasm::*;
 
 // The repository's real driver, compiled into the harness exactly the way
 // /repo/src/main.rs compiles it.
-#[path = "/repo/src/driver.rs"]
+#[path = "../../repo-link/src/driver.rs"]
 pub mod driver;
 
 pub mod c03;
